@@ -106,13 +106,15 @@ fn normalize(mut v: Vec<u8>) -> Vec<u8> {
     v
 }
 
-/// Contents aimed at the probe boundary. `stored`: CRLF-free with LFs before the boundary (so
-/// that expansion shifts positions); otherwise disk-style with CRLFs.
-fn large_content(rng: &mut jjv::Rng, stored: bool) -> Vec<u8> {
-    let k = rng.usize(4); // line ends before the boundary
+const SPECIALS: &[&[u8]] = &[b"\r", b"\0", b"\n", b"b", b"\n\n", b"\r\n", b"\r\r\n"];
+const TAILS: &[&[u8]] = &[b"", b"a", b"\n", b"\r", b"\0", b"a\n", b"aaaa\n\0", b"\r\n"];
+
+/// Content aimed at the probe boundary: `k` line ends (LF for stored, CRLF for disk contents)
+/// in one of three layouts, filler, then `special` starting at byte offset `target`, then `tail`.
+fn boundary_content(stored: bool, k: usize, layout: u64, target: usize, special: &[u8], tail: &[u8]) -> Vec<u8> {
     let eol: &[u8] = if stored { b"\n" } else { b"\r\n" };
     let mut v: Vec<u8> = vec![];
-    match rng.below(3) {
+    match layout {
         0 => {
             for _ in 0..k {
                 v.extend_from_slice(eol);
@@ -133,27 +135,30 @@ fn large_content(rng: &mut jjv::Rng, stored: bool) -> Vec<u8> {
             }
         }
     }
-    // where the special byte goes: around LIMIT in this content, or around LIMIT after the
-    // conversion has shifted it by k
-    let shift = if rng.chance(1, 2) { k } else { 0 };
-    let target = (LIMIT as i64 - 3 + rng.below(6) as i64
-        + if stored { -(shift as i64) } else { shift as i64 })
-    .max(v.len() as i64) as usize;
+    let target = target.max(v.len());
     v.extend(std::iter::repeat_n(b'a', target - v.len()));
-    let special: &[u8] = match rng.below(if stored { 5 } else { 7 }) {
-        0 => b"\r",
-        1 => b"\0",
-        2 => b"\n",
-        3 => b"b",
-        4 => b"\n\n",
-        5 => b"\r\n",
-        _ => b"\r\r\n",
-    };
     v.extend_from_slice(special);
-    let tail: &[u8] = *rng.pick(&[&b""[..], b"a", b"\n", b"\r", b"\0", b"a\n", b"aaaa\n\0", b"\r\n"]);
     v.extend_from_slice(tail);
+    v
+}
+
+/// Random boundary content. Stored contents: the special byte is aimed at the boundary either in
+/// the content itself or in its LF->CRLF expansion (shifted by the k line ends before it).
+fn large_content(rng: &mut jjv::Rng, stored: bool) -> Vec<u8> {
+    let k = rng.usize(4);
+    let shift = if rng.chance(1, 2) { k } else { 0 };
+    let target = LIMIT - 3 + rng.usize(6) - if stored { shift } else { 0 };
+    let special = SPECIALS[rng.usize(if stored { 5 } else { 7 })];
+    let layout = rng.below(3);
+    let tail: &[u8] = *rng.pick(TAILS);
+    let v = boundary_content(stored, k, layout, target, special, tail);
     if stored && rng.chance(5, 6) { normalize(v) } else { v }
 }
+
+/// The first EXHAUSTIVE indices enumerate the boundary systematically (see main).
+const EXH_STORED: usize = 4 * 5 * 6;
+const EXH_DISK: usize = 2 * 7 * 6;
+const EXHAUSTIVE: usize = EXH_STORED + EXH_DISK;
 
 struct Job {
     index: usize,
@@ -225,20 +230,56 @@ fn main() {
         let mut jobs: Vec<Vec<Job>> = vec![vec![], vec![], vec![]];
         for i in ctx.indices() {
             let mut rng = ctx.rng(i);
-            // input-output gets half of the cases
-            let m = match rng.below(4) {
-                0 => 0,
-                1 => 1,
-                _ => 2,
-            };
-            let stored = rng.chance(3, 5);
-            let large = i % 25 == 7;
-            let input = if large {
-                large_content(&mut rng, stored)
+            let (m, stored, large, input);
+            if i < EXHAUSTIVE && ctx.tier != "replay-random" {
+                // systematic boundary enumeration: line ends before x special x offset
+                large = true;
+                let tail: &[u8] = *rng.pick(TAILS);
+                let layout = rng.below(3);
+                if i < EXH_STORED {
+                    let (k, sp, off) = (i / 30, (i / 6) % 5, i % 6);
+                    stored = true;
+                    m = 2;
+                    // aimed so that the EXPANDED content has the special at LIMIT-3+off
+                    let v = boundary_content(true, k, layout, LIMIT - 3 + off - k, SPECIALS[sp], tail);
+                    input = normalize(v);
+                } else {
+                    let j = i - EXH_STORED;
+                    let (k, sp, off) = (2 * (j / 42), (j / 6) % 7, j % 6);
+                    stored = false;
+                    m = 1 + (j % 2);
+                    input = boundary_content(false, k, layout, LIMIT - 3 + off, SPECIALS[sp], tail);
+                }
             } else {
-                let c = small_content(&mut rng);
-                if stored && rng.chance(3, 4) { normalize(c) } else { c }
-            };
+                // input-output gets half of the cases
+                m = match rng.below(4) {
+                    0 => 0,
+                    1 => 1,
+                    _ => 2,
+                };
+                stored = rng.chance(3, 5);
+                large = i % 10 == 7;
+                input = if large {
+                    large_content(&mut rng, stored)
+                } else {
+                    let c = small_content(&mut rng);
+                    if stored && rng.chance(3, 4) {
+                        normalize(c)
+                    } else if !stored && rng.chance(1, 2) {
+                        // disk contents with (mostly) CRLF line ends
+                        let mut v = vec![];
+                        for b in c {
+                            if b == b'\n' && rng.chance(3, 4) {
+                                v.push(b'\r');
+                            }
+                            v.push(b);
+                        }
+                        v
+                    } else {
+                        c
+                    }
+                };
+            }
             jobs[m].push(Job { index: i, stored, input, large });
         }
         for (m, (mode, mode_name)) in modes.iter().enumerate() {
